@@ -86,7 +86,8 @@ fn gen_size(rng: &mut Rng, total: usize) -> SizeSpec {
 
 fn gen_enc(rng: &mut Rng, thorough: bool) -> EncCase {
     let req = gen_req(rng, true, false);
-    let later = if rng.chance(1, 5) { Some(gen_req(rng, false, false)) } else { None };
+    // (after a CONNECT request the codec decodes payload, not another request head)
+    let later = if rng.chance(1, 5) && !req.stream() { Some(gen_req(rng, false, false)) } else { None };
     let n = rng.below(5) as usize;
     let chunks: Vec<String> = (0..n).map(|_| gen_chunk(rng, thorough)).collect();
     let total: usize = chunks.iter().map(|c| c.len() / 2).sum();
@@ -159,6 +160,16 @@ fn gen_conn(rng: &mut Rng, thorough: bool) -> ConnCase {
     }
 }
 
+/// the handler took framing into its own hands (documented escape hatches): no_chunking on a
+/// streaming body together with its own length/coding header; a manual framing header retained
+/// on a 304; BodySize::None ("omit content-length") on a status that may carry a body
+fn optout(req: &ReqSpec, resp: &RespSpec, size: &SizeSpec) -> bool {
+    let user_framing = resp.headers.iter().any(|h| h.0 == "content-length" || h.0 == "transfer-encoding");
+    (resp.no_chunking && *size == SizeSpec::Stream && user_framing)
+        || (resp.status == 304 && resp.headers.iter().any(|h| h.0 == "transfer-encoding"))
+        || (*size == SizeSpec::None && !resp.bodiless_status() && !req.head())
+}
+
 fn size_tag(s: &SizeSpec) -> &'static str {
     match s {
         SizeSpec::None => "size:none",
@@ -184,7 +195,7 @@ fn emit_enc(em: &mut Emitter, id: String, c: EncCase) {
     if !known.is_empty() {
         tags.push(format!("class:{known}"));
     }
-    let optout = c.resp.no_chunking && c.size == SizeSpec::Stream && c.resp.headers.iter().any(|h| h.0 == "content-length" || h.0 == "transfer-encoding");
+    let optout = optout(&c.req, &c.resp, &c.size);
     let mut ops = vec![format!("EDecode {}", c.req.coq())];
     if let Some(l) = &c.later {
         ops.push(format!("EDecode {}", l.coq()));
@@ -234,11 +245,11 @@ fn conn_known_class(c: &ConnCase, run: &conn::ConnRun) -> String {
         if r.expect && r.ver == 10 {
             return "F23-expect-http10".into();
         }
-        if h.resp.bodiless_status() && !h.size.eofish() && !r.head() {
-            return "F2-bodiless-status-with-body".into();
+        if h.resp.status == 304 && !h.size.eofish() && !r.head() {
+            return "F2-304-with-body".into();
         }
-        if r.ver == 10 && h.size == SizeSpec::Stream {
-            return "F18-http10-stream".into();
+        if (r.ver == 10 || h.resp.no_chunking) && h.size == SizeSpec::Stream {
+            return "F18-unframed-stream".into();
         }
         if h.size == SizeSpec::Stream && !h.resp.no_chunking && !h.filtering() && h.script.iter().any(|a| matches!(a, BAct::Chunk(x) if x.is_empty())) {
             return "F1-empty-chunk".into();
@@ -298,7 +309,7 @@ fn emit_conn(em: &mut Emitter, id: String, c: ConnCase) {
     }
     tags.sort();
     tags.dedup();
-    let optout = c.handlers.iter().any(|h| h.resp.no_chunking && h.size == SizeSpec::Stream && h.resp.headers.iter().any(|x| x.0 == "content-length" || x.0 == "transfer-encoding"));
+    let optout = c.handlers.iter().zip(&c.reqs).any(|(h, r)| optout(r, &h.resp, &h.size));
     let (coq_case, expect, show, ok, why, known) = match &r {
         Ok(run) => {
             let coq_case = format!(
